@@ -453,14 +453,22 @@ def r_wire(ctx, rule):
     for p, e, loops in each_event(model, model.runtime_entries(), ("send",)):
         nout += 1
         t = e["payload"]
-        ok = False
-        if t[0] == "call" and t[1] == ".encode" and t[2] and t[2][0][0] == "call" and \
-                t[2][0][1] == "json.dumps" and t[2][0][2] and \
-                t[2][0][2][0][0] in ("kwdict", "dictlit"):
-            enc = t[2][1:]
-            ok = all(a == ("const", "utf-8") or a == ("const", "utf8") for a in enc)
-        elif t[0] == "call" and t[1] == "json.dumps":
-            ok = True
+        # peel the serialisation wrappers: x.encode([utf-8]), bytes(x, utf-8),
+        # json.dumps(x, ...); what remains must be the mapping of fields
+        UTF = (("const", "utf-8"), ("const", "utf8"), ("const", "UTF-8"))
+        cur = t
+        ok = True
+        dumped = False
+        for _ in range(6):
+            if cur[0] == "call" and cur[1] in (".encode", "bytes") and cur[2] and \
+                    all(a in UTF for a in cur[2][1:]) and not dumped:
+                cur = cur[2][0]
+            elif cur[0] == "call" and cur[1] == "json.dumps" and cur[2] and not dumped:
+                dumped = True
+                cur = cur[2][0]
+            else:
+                break
+        ok = dumped and cur[0] in ("kwdict", "dictlit")
         if not ok:
             bad_out.setdefault(e["site"], e)
         for x in walk(t):
@@ -468,9 +476,10 @@ def r_wire(ctx, rule):
                 nin += 1
                 a = x[2][0] if x[2] else None
                 okin = a is not None and (a == ("param", "payload") or (
-                    a[0] == "call" and a[1] == ".decode" and a[2] and
+                    a[0] == "call" and a[1] in (".decode", "str") and a[2] and
                     a[2][0] == ("param", "payload") and
-                    all(y in (("const", "utf-8"), ("const", "utf8")) for y in a[2][1:])))
+                    all(y in (("const", "utf-8"), ("const", "utf8"), ("const", "UTF-8"))
+                        for y in a[2][1:])))
                 if not okin:
                     bad_in.setdefault(e["site"], (e, a))
     from ..terms import show
